@@ -830,10 +830,15 @@ func (w *worker) run(v engine.Vec) engine.Result {
 		return engine.Bad(rule, "harness-panic", "C05/harness-panic", pan)
 	}
 	outcome := o.class()
-	site := "/" + c.router + "/" + c.op
 	if traceKey != "" && traceKey == rule+"|"+outcome {
 		traceOnce.Do(func() { fmt.Printf("TRACE %s %v\n  %s\n", traceKey, w.sp.Describe(v), o.detail) })
 	}
+	return judge(c, want, rule, outcome, o)
+}
+
+// judge compares the observation of one request with the expectation of the reference predicate.
+func judge(c caseT, want expect, rule, outcome string, o observation) engine.Result {
+	site := "/" + c.router + "/" + c.op
 	switch want {
 	case mustRefuse:
 		if o.acted {
@@ -876,13 +881,19 @@ func TestCheck(t *testing.T) {
 	sp := buildSpace(full)
 	c.SetRule("E1: full product over registration(method x grant shape x app type x keys on file) x presentation x operation x router, " +
 		"crossed with at most one (quick) / all (thorough) of the six provider flags / storage capabilities switched off; quick adds all 64 flag combinations x method x presentation x operation x router at the all-grants web registration; " +
-		"distinct = distinct (oracle clause, observed outcome class)")
+		"distinct = distinct (oracle clause, observed outcome class). " +
+		"Part identity-source (E1): full product caller(7: method x right/wrong credential) x grants of the caller(2) x contradictory client_id form parameter(11; thorough 16) x " +
+		"owner of the redeemed artifact(2) x position of the parameter(6: after/before the own one in the body, URL query, own one in the query, all in the query x2) x operation(8) x router(2), " +
+		"crossed with at most one (quick) / all (thorough) of application type inverse, AuthMethodPost off, AuthMethodPrivateKeyJWT off; every stored device authorization is approved and polled by all 8 registered clients")
 	c.Assume(
 		"refstore is the storage (trusted): secret authentication fails for clients without a secret; service users are the clients of the client_credentials grant",
 		"a private_key_jwt client never has a secret on file; a public client never has a secret on file",
 		"Either (DESIGN 1.6): channel of a correct secret; assertion by a keyed non-private_key_jwt client at introspection; exact status >= 400; exact error code among the registered OAuth codes",
 		"Either (decided while building, demanding less): public client sending a superfluous secret; valid assertion with wrong/missing client_assertion_type; private_key_jwt disabled in the provider; jwt-bearer grant by a keyed client not registered for it (issuer is identified by the storage key table); credential quality at /device_authorization for a known client",
 		"panics / double responses are outcome classes of C09 and satisfy a refusal obligation when nothing was issued",
+		"identity-source: the clients an endpoint acted for are read from the storage (client of created tokens / refresh tokens / device authorizations, clientID argument of RevokeToken, SetIntrospectionFromToken, StoreDeviceAuthorization)",
+		"identity-source, decided (DESIGN 5.5 item 2): beside a VALID Basic header or client assertion a client_id form parameter may be refused or ignored but the named client must never be acted for (also at /device_authorization, where the statement itself only asks for a known client with the device grant; acting for a named client WITHOUT the device grant is reported under the statement's own clause grant-not-registered)",
+		"identity-source, Either (demanding less): with a form-only or failed presentation (body secret, bare client_id, wrong secret, foreign assertion) the request names two clients and each is judged on its own: a named PUBLIC client may be served (superfluous credential), any known client may be named at /device_authorization, a named client whose own correct secret is in the form may be served; serving a request that carries a contradictory or a redundant own client_id is never demanded",
 	)
 	// quick: (full registration x presentation x operation x router) x at most ONE flag off,
 	// plus (method x presentation x operation x router at the all-grants web registration) x
@@ -893,6 +904,13 @@ func TestCheck(t *testing.T) {
 	ks := []int{1, 0} // "at most one deviation" now ranges over the six flags and the parameter channel
 	if c.Thorough() {
 		groups, ks = [][]string{append(slices.Clone(main), "channel")}, []int{len(flags)}
+	}
+	if devOnly != "" && devOnly != "client-auth-and-grant" {
+		// development aid (never set by vcheck): run one part only; the run is reported as not exhaustive
+		c.Cap("development run: only part " + devOnly)
+		runIdentityPart(t, c)
+		c.Finish()
+		return
 	}
 	c.RunE1(engine.E1{
 		Part:   "client-auth-and-grant",
@@ -905,11 +923,13 @@ func TestCheck(t *testing.T) {
 		},
 	})
 	c.Extra("flag_deviation_bounds", ks)
+	runIdentityPart(t, c)
 	c.Finish()
 }
 
 // C05_TRACE="<rule>|<outcome>" prints the first case with that pair (triage aid only).
 var (
 	traceKey  = os.Getenv("C05_TRACE")
+	devOnly   = os.Getenv("C05_PART")
 	traceOnce sync.Once
 )
